@@ -736,6 +736,47 @@ func (c *SpecCtx) call(e *SCall) Val {
 			return Val{S: Ite("("+op+" "+a.S+" "+b.S+")", b.S, a.S), T: a.T, Bltn: a.Bltn}
 		}
 		return Val{S: Ite("("+op+" "+a.S+" "+b.S+")", a.S, b.S), T: a.T, Bltn: a.Bltn}
+	case "fsin", "fcos", "ftan", "fasin", "facos", "fatan", "fexp", "flog", "fsqrt":
+		v := c.toFloat(arg(0), e.Args[0])
+		if x.te.FMode != FloatReal {
+			sfail("%s is only available in real mode", e.Fn)
+		}
+		if e.Fn == "fsqrt" {
+			x.S.DeclareFun("fsqrt", []string{"Real"}, "Real")
+			x.S.Axiom("fsqrt", []string{"fsqrt"}, "(forall ((v Real)) (! (=> (>= v 0.0) (and (>= (fsqrt v) 0.0) (= (* (fsqrt v) (fsqrt v)) v))) :pattern ((fsqrt v))))")
+			return specVal("(fsqrt "+v.S+")", "Real")
+		}
+		return specVal(x.ufFloat(e.Fn, v.S), "Real")
+	case "mk":
+		// mk(TypeName, field values...) builds a struct value
+		id, ok := e.Args[0].(*SIdent)
+		tname := ""
+		if ok {
+			tname = id.Name
+		} else if f, ok := e.Args[0].(*SField); ok {
+			if b, ok := f.X.(*SIdent); ok {
+				tname = b.Name + "." + f.Name
+			}
+		}
+		if tname == "" {
+			sfail("mk needs a type name")
+		}
+		t := c.lookupType(tname)
+		si := x.te.structOf(t)
+		if len(e.Args)-1 != len(si.fields) {
+			sfail("mk(%s): need %d field values", tname, len(si.fields))
+		}
+		var parts []string
+		for i := range si.fields {
+			v := arg(i + 1)
+			if isFloat(si.ftypes[i]) {
+				v = c.toFloat(v, e.Args[i+1])
+			}
+			parts = append(parts, v.S)
+		}
+		return Val{S: "(" + si.ctor + " " + strings.Join(parts, " ") + ")", T: t}
+	case "pi":
+		return specVal(floatLit(x.te, 3.141592653589793), x.te.FloatSort())
 	case "pow10":
 		n := arg(0)
 		fs := x.te.FloatSort()
@@ -816,6 +857,21 @@ func (c *SpecCtx) call(e *SCall) Val {
 }
 
 func (c *SpecCtx) lookupType(name string) types.Type {
+	if strings.HasPrefix(name, "P_") {
+		return types.NewPointer(c.lookupType(name[2:]))
+	}
+	if i := strings.Index(name, "."); i > 0 && c.pkg != nil {
+		for _, imp := range c.pkg.Imports() {
+			if imp.Name() == name[:i] {
+				if obj := imp.Scope().Lookup(name[i+1:]); obj != nil {
+					if tn, ok := obj.(*types.TypeName); ok {
+						return tn.Type()
+					}
+				}
+			}
+		}
+		sfail("unknown type %s", name)
+	}
 	if c.pkg != nil {
 		if obj := c.pkg.Scope().Lookup(name); obj != nil {
 			if tn, ok := obj.(*types.TypeName); ok {
